@@ -177,7 +177,14 @@ class StubSim(mosaik_api_v3.Simulator):
             ent = {}
             if sp["type"] != "event-based" and "po" in want and sp.get("po", True):
                 ent["po"] = None if none_now else f"{self.sid}{k}{mark}"
-            if d is not None and "eo" in want:
+            emits = d is not None
+            if eid == "f" and "emit_f" in sp:
+                # the second entity may have an emission schedule of its own (1 = emits at the
+                # reply's output time, None = does not)
+                emits = emits and _idx(sp["emit_f"], k, sp.get("emit_f_default")) is not None
+            if eid == "e" and "emit_e" in sp:
+                emits = emits and _idx(sp["emit_e"], k, sp.get("emit_e_default")) is not None
+            if emits and "eo" in want:
                 ent["eo"] = None if none_now else f"{self.sid}{k}{mark}e"
             if ent:
                 data[eid] = ent
